@@ -220,7 +220,9 @@ def negative_case(draw):
             "s": draw(fl(-1.0, 1.0)), "K": draw(st.sampled_from([1.0, 0.5, 2.0])), "mixed": draw(st.booleans()),
             "dtype": draw(st.sampled_from(["float32", "float64"])),
             # the offending argument as a tensor element, a 0-dim tensor, or a plain Python number (all three forms are accepted for valid values)
-            "form": draw(st.sampled_from(["tensor", "tensor", "scalar0d", "float", "int"]))}
+            "form": draw(st.sampled_from(["tensor", "tensor", "scalar0d", "float", "int"])),
+            # the other of the two arguments at the boundary as well (a negative volatility at maturity, a negative time at zero volatility)
+            "other": draw(st.sampled_from([None, None, 0.0, -0.0, 1e-300]))}
 
 
 def check_negative(case, ctx):
@@ -242,6 +244,11 @@ def check_negative(case, ctx):
             return torch.tensor(case["neg"], dtype=dt)
         return -1 if form == "int" else case["neg"]
 
+    if case.get("other") is not None and case["which"] != "both":
+        if case["which"] == "t":
+            v = torch.full((n,), case["other"], dtype=dt)
+        else:
+            t = torch.full((n,), case["other"], dtype=dt)
     if case["which"] in ("t", "both"):
         t = offending(t)
     if case["which"] in ("v", "both"):
@@ -261,7 +268,7 @@ def check_negative(case, ctx):
     for name, fn in fns.items():
         ctx.expect_raises("C18/negative-accepted", (ValueError,), fn)
     ctx.nontrivial(True)
-    ctx.cls("which:" + case["which"], "mixed:" + str(case["mixed"]), "form:" + form)
+    ctx.cls("which:" + case["which"], "mixed:" + str(case["mixed"]), "form:" + form, "other-at-boundary:" + str(case.get("other") is not None))
 
 
 # ------------------------------------------------------------------ hedger sweep
